@@ -155,6 +155,12 @@ class Program:
             p = os.path.join(self.root, d)
             if os.path.isdir(p):
                 self._load_dir(p, d.replace(os.sep, "."), into=self.extra)
+        if os.environ.get("SA_NO_INLINE") != "1":
+            from . import inline
+
+            pr = inline.expand_new_properties({n: m.tree for n, m in self.modules.items()})
+            if pr:
+                self.inlined.setdefault("<properties>", []).extend(pr)
         if self.inlined:
             from . import inline
 
